@@ -318,7 +318,85 @@ fn run_files(ctx: &Ctx) -> CheckResult {
             other => return Err(ctx.violation("missing", format!("{}: hash_file_for on a directory returned {:?}", va.v().name, other.map(|h| h.display())), json!({"variant": va.v().name}))),
         }
     }
-    st.sample(|| json!({"check": "files", "sizes": sizes}));
+    // files that are not regular files: a named pipe (reports length 0, delivers data in
+    // several reads) and two procfs files with stable content (report length 0)
+    for va in &vs {
+        if let Err(m) = case_special_files(*va, ctx.seed, &st) {
+            return Err(ctx.violation("special", m, json!({"variant": va.v().name, "seed": ctx.seed})));
+        }
+    }
+    st.sample(|| json!({"check": "files", "sizes": sizes, "special": ["named pipe", "/proc/version", "/proc/filesystems", "/dev/null"]}));
+    Ok(())
+}
+
+/// hash_file on a named pipe and on procfs files equals hash_buf of the same content.
+pub fn case_special_files(va: &dyn VariantApi, seed: u64, st: &CaseStats) -> Result<(), String> {
+    let v = va.v();
+    let dir = std::env::var("VERIF_SCRATCH").unwrap_or_else(|_| "/verif/build/tmp".into());
+    // procfs / device files
+    for p in ["/proc/version", "/proc/filesystems", "/dev/null"] {
+        let path = std::path::Path::new(p);
+        let Ok(content) = std::fs::read(path) else { continue };
+        // stable content is a precondition of the comparison
+        if std::fs::read(path).ok().as_ref() != Some(&content) {
+            continue;
+        }
+        let want = va.hash_buf(&content).ok_or("hash_buf not compiled")?;
+        st.eval();
+        let got = match va.hash_file(path).ok_or("hash_file not compiled")? {
+            Ok(h) => Ok(h),
+            Err(StreamErr::Gen(g)) => Err(g),
+            Err(StreamErr::Io(e)) => return Err(format!("{}: hash_file_for({}) returned the I/O error {:?}", v.name, p, e)),
+        };
+        if !same(&got, &want) {
+            return Err(format!("{}: hash_file_for({}) = {} but hash_buf of its {} bytes = {}", v.name, p, show(&got), content.len(), show(&want)));
+        }
+        st.class("special file: procfs / device");
+    }
+    // a named pipe fed by a writer thread
+    for (k, size) in [300usize, (1 << 20) + 77].into_iter().enumerate() {
+        let fifo = std::path::Path::new(&dir).join(format!("c12-fifo-{}-{}-{}", std::process::id(), v.name, k));
+        let _ = std::fs::remove_file(&fifo);
+        let made = std::process::Command::new("mkfifo").arg(&fifo).status().map(|s| s.success()).unwrap_or(false);
+        if !made {
+            st.class("special file: mkfifo unavailable (skipped)");
+            return Ok(());
+        }
+        let data = DataSpec { kind: Kind::Mixed, len: size, seed: seed ^ k as u64, explicit: None }.render();
+        let want = va.hash_buf(&data).ok_or("hash_buf not compiled")?;
+        let (d2, f2) = (data.clone(), fifo.clone());
+        let writer = std::thread::spawn(move || {
+            use std::io::Write;
+            if let Ok(mut f) = std::fs::OpenOptions::new().write(true).open(&f2) {
+                for chunk in d2.chunks(4099) {
+                    if f.write_all(chunk).is_err() {
+                        break;
+                    }
+                }
+            }
+        });
+        st.eval();
+        let r = va.hash_file(&fifo).ok_or("hash_file not compiled")?;
+        // if the helper returned without reading everything, unblock the writer
+        if !writer.is_finished() {
+            if let Ok(mut f) = std::fs::File::open(&fifo) {
+                let mut sink = Vec::new();
+                let _ = std::io::Read::read_to_end(&mut f, &mut sink);
+            }
+        }
+        let _ = writer.join();
+        let _ = std::fs::remove_file(&fifo);
+        let got = match r {
+            Ok(h) => Ok(h),
+            Err(StreamErr::Gen(g)) => Err(g),
+            Err(StreamErr::Io(e)) => return Err(format!("{}: hash_file_for(named pipe) returned the I/O error {:?}", v.name, e)),
+        };
+        if !same(&got, &want) {
+            return Err(format!("{}: hash_file_for on a named pipe delivering {} bytes = {} but hash_buf of those bytes = {}", v.name, size, show(&got), show(&want)));
+        }
+        st.class("special file: named pipe");
+        st.nontrivial(fnv_mix(fnv(v.name.as_bytes()), size as u64 ^ 0xF1F0));
+    }
     Ok(())
 }
 
@@ -336,6 +414,7 @@ pub fn replay(ctx: &Ctx, check: &str, case: &Value) -> Result<(), String> {
             case_file(ctx.api, va, g("size")? as usize, g("seed")?, &st)
         }
         "missing" => Ok(()),
+        "special" => case_special_files(va, case.get("seed").and_then(|x| x.as_u64()).unwrap_or(0), &st),
         _ => Err(format!("unknown check {}", check)),
     }
 }
